@@ -548,7 +548,13 @@ func (w *World) evalIndex(env *CEnv, e *CExpr) *Val {
 		case *types.Slice:
 			key := w.elemsKeyT(t.Elem())
 			env.noteRead(key, x.T)
-			return &Val{T: sel(sel(w.hget(env.state(), key), sarr(x.T)), add(soff(x.T), i.T)), Typ: t.Elem()}
+			v := &Val{T: sel(sel(w.hget(env.state(), key), sarr(x.T)), add(soff(x.T), i.T)), Typ: t.Elem()}
+			if _, isPtr := t.Elem().Underlying().(*types.Pointer); isPtr && !strings.Contains(v.T.S, "q!") {
+				// type invariant of the memory model: a pointer stored in a backing array is nil or refers to an
+				// allocated object (the same assumption every load in the body makes)
+				w.sc.assume(and(le(intLit(0), v.T), le(v.T, w.hget(env.state(), allocKey))))
+			}
+			return v
 		case *types.Map:
 			v, _ := w.mapLoadEnv(env, t, x.T, i.T)
 			return &Val{T: v, Typ: t.Elem()}
@@ -870,6 +876,16 @@ func (w *World) evalCall(env *CEnv, e *CExpr) *Val {
 		key := w.cellKey(w.sortOf(et))
 		env.noteRead(key, p.T)
 		return &Val{T: sel(w.hget(env.state(), key), p.T), Typ: et}
+	case "local":
+		// local(x): the current value of the body's variable x, also when x is a parameter that the body keeps
+		// in a cell of its own (a bare parameter name denotes the value passed in)
+		if len(args) != 1 || args[0].Op != "id" || env.fr == nil {
+			unsupported("local() takes the name of a variable of the function body")
+		}
+		if v := w.localByName(env, args[0].Name); v != nil {
+			return v
+		}
+		return w.evalIdent(env, args[0].Name)
 	case "captured":
 		// captured(v): the value the captured variable v holds in the state the clause talks about
 		// (a bare v is the value it held when the closure was entered)
